@@ -85,10 +85,10 @@ if __name__ == "__main__":
              "Proof for N-Triples/N-Quads: a reader error is never a clean end, a clean end only on blank remainder (truncation inside a statement is an error), a produced statement is independent of what follows and of how the stream ends (next_extend), statements of a prefix are a prefix of the statements of the document (prefix_monotone); determinism is functionhood of the model. Turtle/TriG: ioerr_reported, truncation reported for every scan function that checks its error argument (partial: six closures excluded, corresponded only), prefix monotonicity corresponded only (known finding D43). Chunking independence: bufio turns any chunking into one rune stream (assumption) — exercised by T3 with 1-byte/mid-rune/random chunk readers for every decoder incl. the whole-document formats.",
              "Trusted: as C05; bufio.Reader semantics; whole-document formats by search only.",
              "Lean 4 theorems over the abstract rune stream (eof | ioerr) + T3 with chunked/failing readers and every-prefix truncation")
-    assemble("C02", [("C02T.fragment", r"C02\.", "C02")],
+    assemble("C02", [("C02T.fragment", r"C02\.", "C02"), ("C02D", None, None)],
       "proof (partial)",
-      "Proof (partial: token level): for every IRI, lexical form, local name, language tag and label the Turtle formatter's output is read back by the decoder's token producer as the same value (iriref_roundtrip, string_roundtrip, pname_roundtrip under PNLocalOK, langtag/bnode round trips), a literal written in bare shorthand is read back with the same datatype AND lexical form (shorthand_sound, shorthand_datatypes), producers never panic; generic in the T1 tables regenerated from encoding/turtle and encoding/trig. Document level (statement grouping, prefix/base directives, nested resources): the encoder's bytes are not modelled yet; the property oracle encode -> decode (same defaults) -> isomorphism runs on the implementation for every generated configuration. The document-level model/theorems are being added (props/C02D.json).",
-      "Trusted: Lean kernel; standard axioms at most; T1 extractor (ttl); T3 harness c02tok for the producers/formatters of both packages; iri.BaseIRI/PrefixManager behaviour is C13's; document layer by oracle only.",
+      "Proof (partial: token level): for every IRI, lexical form, local name, language tag and label the Turtle formatter's output is read back by the decoder's token producer as the same value (iriref_roundtrip, string_roundtrip, pname_roundtrip under PNLocalOK, langtag/bnode round trips), a literal written in bare shorthand is read back with the same datatype AND lexical form (shorthand_sound, shorthand_datatypes), producers never panic; generic in the T1 tables regenerated from encoding/turtle and encoding/trig. Document level: the encoder is modelled byte for byte (Model/TurtleEncoder.lean) and plain-triple mode is proved for EVERY configuration (plain_doc_roundtrip / plain_doc_iso: buffered or not, sorted or not, @/SPARQL/disabled directives with the same defaults given to the decoder; writeIRI_expand through the prefixed, relative and absolute branches, citing C13 and the token theorems; the decoder side is the Turtle statement machine of Model/TurtleDoc.lean). Nested-resource mode: proved for flat resources (resources_doc_roundtrip_partial); the full nested statement ([ ] property lists, ( ) collections, anonymous roots, composition with the C17 export) stays a def and is covered by T3 (bytes) and the encode -> decode isomorphism oracle.",
+      "Trusted: Lean kernel; standard axioms at most; T1 extractor (ttl); T3 harnesses c02tok (producers/formatters of both packages) and c02 (encoder bytes, order parameters taken from the real PrefixManager/ResourceListBuilder); the resolver is a parameter constrained to the C12 domain (stableUnder); nested-resource mode beyond flat resources by T3 + oracle.",
       "Lean 4 round-trip theorems for every Turtle token kind over T1-regenerated tables + T3 of producers/formatters + encode/decode isomorphism oracle")
     assemble("C07", [("C07NQ.part", None, None), ("C02T.fragment", r"C07\.", "C07"), ("C05Ttl", r"C07\.", "C07")],
       "proof (partial)",
